@@ -61,6 +61,12 @@ pub struct HashInfo {
     pub owner: usize,
     pub kind: HashKind,
     pub preimage: [u8; 32],
+    /// The bytes whose hash is `digest`, as the owner stores them in a PSBT preimage map. For one
+    /// hash in ten these are NOT 32 bytes long (a counterparty chose the secret): the script's
+    /// `SIZE 32 EQUALVERIFY` makes such a hash unsatisfiable, nobody's world contains it, and the
+    /// library has to answer "no preimage" for it.
+    pub psbt_value: Vec<u8>,
+    pub usable: bool,
     pub digest: Vec<u8>,
     /// how it is written in the descriptor: `sha256(<hex>)`
     pub hex: String,
@@ -188,15 +194,22 @@ impl KeyUniverse {
         let id = self.hashes.len();
         let mut r = Rng::new(crate::rng::mix(&[self.seed, 0x4a5, id as u64]));
         let preimage = r.bytes32();
+        let odd = crate::rng::mix(&[self.seed, 0x6f6464, id as u64]) % 10 == 0;
+        let psbt_value: Vec<u8> = if odd {
+            let len = *r.pick(&[0usize, 1, 20, 31, 33, 64]);
+            (0..len).map(|_| r.below(256) as u8).collect()
+        } else {
+            preimage.to_vec()
+        };
         let digest: Vec<u8> = match kind {
-            HashKind::Sha256 => sha256::Hash::hash(&preimage).to_byte_array().to_vec(),
-            HashKind::Hash256 => sha256d::Hash::hash(&preimage).to_byte_array().to_vec(),
-            HashKind::Ripemd160 => ripemd160::Hash::hash(&preimage).to_byte_array().to_vec(),
-            HashKind::Hash160 => hash160::Hash::hash(&preimage).to_byte_array().to_vec(),
+            HashKind::Sha256 => sha256::Hash::hash(&psbt_value).to_byte_array().to_vec(),
+            HashKind::Hash256 => sha256d::Hash::hash(&psbt_value).to_byte_array().to_vec(),
+            HashKind::Ripemd160 => ripemd160::Hash::hash(&psbt_value).to_byte_array().to_vec(),
+            HashKind::Hash160 => hash160::Hash::hash(&psbt_value).to_byte_array().to_vec(),
         };
         // hash256 is displayed forwards by the library (miniscript::hash256::Hash)
         let hex = hex_of(&digest);
-        self.hashes.push(HashInfo { id, owner, kind, preimage, digest, hex });
+        self.hashes.push(HashInfo { id, owner, kind, preimage, psbt_value, usable: !odd, digest, hex });
         id
     }
 
